@@ -63,6 +63,8 @@ def gen_spec(rng, cfg):
             return "r%s_%s" % (salt, nm)   # key that contains a container label (r<salt> is the first root)
         if r < 0.23:
             return "%s[%s].x" % (nm, salt)  # key that looks like a path
+        if r < 0.30 and r >= 0.27:
+            return (i,) if rng.random() < 0.6 else (i, i + 1)     # tuple keys (a multi-index), also of length one
         if r < 0.27:
             # non-ASCII text in a key: a character of the basic plane, or one beyond it (U+1D54F, U+1F600)
             return "%s%s%s" % (nm, rng.choice(["\u00e9", "\U0001d54f", "\U0001f600", "\u4e2d"]), salt)
